@@ -137,6 +137,9 @@ type Client struct {
 	failedProps map[string]bool
 	// getSet: rid -> index (in Frames) of the latest get response that delivered it
 	getSet map[string]int
+	// lostHolder: resources that stayed held when another held resource
+	// referring to them was dropped (see staleSentExplained)
+	lostHolder map[string]bool
 	// DeletedSeen: rids for which the client has received a delete event
 	DeletedSeen map[string]bool
 	DeletedSeq  map[string]uint64 // ... and when
@@ -144,7 +147,7 @@ type Client struct {
 
 func (s *Sim) newClient() *Client {
 	c := &Client{s: s, Idx: len(s.Clients), State: "new", Proto: protoLegacy, Reqs: map[uint64]*CReq{},
-		F3rids: map[string]bool{}, directSince: map[string]int{}, UnsubReasons: map[string]string{}, ErrSeen: map[string]bool{}, ivFail: map[string]string{}, getSet: map[string]int{}, DeletedSeen: map[string]bool{}, DeletedSeq: map[string]uint64{}, Direct: map[string]int{}, Fuzzy: map[string]bool{}, Cache: map[string]*CRes{}, Revoked: map[string]int{}, CIdx: -1}
+		F3rids: map[string]bool{}, directSince: map[string]int{}, UnsubReasons: map[string]string{}, ErrSeen: map[string]bool{}, ivFail: map[string]string{}, getSet: map[string]int{}, lostHolder: map[string]bool{}, DeletedSeen: map[string]bool{}, DeletedSeq: map[string]uint64{}, Direct: map[string]int{}, Fuzzy: map[string]bool{}, Cache: map[string]*CRes{}, Revoked: map[string]int{}, CIdx: -1}
 	c.Name = fmt.Sprintf("k%d", c.Idx)
 	s.Clients = append(s.Clients, c)
 	return c
@@ -582,6 +585,11 @@ func (c *Client) gc() {
 	dropped := false
 	for _, rid := range sortedKeys(c.Cache) {
 		if !reach[rid] {
+			for _, x := range refsOf(c.Cache[rid]) {
+				if reach[x] {
+					c.lostHolder[x] = true
+				}
+			}
 			c.closeInterval(c.Cache[rid], "dropped")
 			if c.Cache[rid].Kind != 'e' {
 				dropped = true
@@ -600,12 +608,13 @@ func (c *Client) checkRefs(f *Frame) {
 	for _, rid := range sortedKeys(c.Direct) {
 		if c.Direct[rid] > 0 && c.Cache[rid] == nil {
 			sh := "missing-root"
-			if _, ok := c.getSet[rid]; ok {
-				sh = "missing-root-after-get"
-			} else if c.everHeld(rid) {
+			if c.everHeld(rid) {
 				// known finding F-12: kept as "sent" by a provisional direct count
 				// while the client, which cannot know about that count, dropped it
 				sh = "missing-root-previously-held"
+				if !c.staleSentExplained(rid) {
+					sh = "missing-root-released"
+				}
 			}
 			msg := fmt.Sprintf("client %s is directly subscribed to %s but was never given its data or an error placeholder (after frame %s)", c.Name, rid, trunc(f.Raw, 300))
 			if sh == "missing-root" {
@@ -619,12 +628,6 @@ func (c *Client) checkRefs(f *Frame) {
 	for _, rid := range sortedKeys(c.Cache) {
 		for _, x := range refsOf(c.Cache[rid]) {
 			if c.Cache[x] == nil {
-				if _, ok := c.getSet[x]; ok {
-					// known finding F-8: delivered earlier by a get response (which the
-					// client does not retain) and therefore treated as sent by the gateway
-					c.violate("C02", "a", "dangling-after-get", "client %s holds %s with a reference to %s which the gateway delivered only in the response of an earlier get request (after frame %s)", c.Name, rid, x, trunc(f.Raw, 300))
-					return
-				}
 				if c.DeletedSeen[rid] {
 					// known finding F-15: a deleted resource that is still referenced is
 					// sent again, its children are not
@@ -635,6 +638,10 @@ func (c *Client) checkRefs(f *Frame) {
 					// known finding F-16: a child that is still loading is marked as sent
 					// when a parent that was unsent (and kept processing events) is sent again
 					c.violate("C02", "a", "dangling-child-loading", "client %s holds %s with a reference to %s whose get request is still in flight (after frame %s)", c.Name, rid, x, trunc(f.Raw, 300))
+					return
+				}
+				if c.everHeld(x) && !c.staleSentExplained(x) {
+					c.violate("C02", "a", "dangling-released", "client %s holds %s with a reference to %s which it held earlier and has released, with no request of its own on %s in flight and no other holder lost before: the gateway still treats it as sent (after frame %s)", c.Name, rid, x, x, trunc(f.Raw, 300))
 					return
 				}
 				if c.everHeld(x) {
@@ -772,13 +779,6 @@ func (c *Client) onResponse(f *Frame) {
 			}
 			s.oracleOnHandOver(c, r.RID, f, r)
 		}
-		// see genCoreClientOp: get overlapping other requests of the connection
-		for _, o := range c.ReqL {
-			if o != r && o.Action != "unsubscribe" && o.Action != "version" && o.Seq < f.Seq && o.Resp == nil && c.Tainted == "" {
-				c.Tainted = "get-overlap"
-				s.stat("tainted_clients_get_overlap", 1)
-			}
-		}
 	case "unsubscribe":
 		s.oracleUnsubscribe(c, r, f, n)
 		if f.Error == nil {
@@ -879,8 +879,8 @@ func (c *Client) onEvent(f *Frame) {
 		return
 	}
 	if held == nil || held.Kind == 'e' {
-		if c.strayAfterGet(rid) {
-			c.violate("C02", "b", "stray-after-get-response", "client %s received event %s for %s right after the response of a get request that delivered it (events queued while the get was loading are flushed to a client that holds nothing): %s", c.Name, name, rid, trunc(f.Raw, 200))
+		if c.everHeld(rid) && !c.provisionalAt(rid, 0) && !s.W.everReferenced(c.expandCID(rid)) {
+			c.violate("C02", "b", "stray-released", "client %s received event %s for %s which it has released, while no request of its own on it is in flight and no resource has ever referred to it: %s", c.Name, name, rid, trunc(f.Raw, 300))
 			return
 		}
 		if c.everHeld(rid) {
@@ -975,29 +975,6 @@ func (c *Client) onEvent(f *Frame) {
 	}
 	c.gc()
 	c.checkRefs(f)
-}
-
-// strayAfterGet: the stray event belongs to the flush that directly follows
-// the response of a get request which delivered rid (known finding F-7).
-func (c *Client) strayAfterGet(rid string) bool {
-	at, ok := c.getSet[rid]
-	if !ok {
-		return false
-	}
-	for i := at + 1; i < len(c.Frames)-1; i++ {
-		f := c.Frames[i]
-		if f.Event == "" {
-			return false
-		}
-		j := strings.LastIndexByte(f.Event, '.')
-		if j < 0 {
-			return false
-		}
-		if _, ok := c.getSet[f.Event[:j]]; !ok || c.getSet[f.Event[:j]] != at {
-			return false
-		}
-	}
-	return true
 }
 
 func (c *Client) resentSuffix(h *CRes) string {
